@@ -818,12 +818,7 @@ def m_len(px, st, fr, ev):
 def m_is_empty(px, st, fr, ev):
     s = seq_of(px, st, ev["args"][0])
     ln = len_term(s)
-    if isinstance(ln, tuple) and ln[0] == "binop" and ln[1] == "Sub":
-        # length of a sub-slice s[a..b] is b - a with a <= b (the slice exists): empty iff a == b
-        t = mk_binop("Eq", ln[2], ln[3])
-    else:
-        t = mk_binop("Eq", ln, const(0))
-    return val(st.cons.lookup(t))
+    return val(st.cons.lookup(zero_length_cond(ln)))
 
 
 @model("core::str::<impl str>::as_bytes", "http::HeaderName::as_str",
@@ -838,6 +833,22 @@ def m_capacity(px, st, fr, ev):
     t = ("cap", s)
     TY.setdefault(t, (64, False))
     return val(t)
+
+
+def zero_length_cond(ln):
+    """`ln == 0` for a length term; the length of a sub-slice s[a..b] is b - a (nested: b - a - c) with a <= b because the
+    slice exists, so it is empty iff b == a (+ c)"""
+    subs = []
+    top = ln
+    while isinstance(top, tuple) and top and top[0] == "binop" and top[1] == "Sub":
+        subs.append(top[3])
+        top = top[2]
+    if not subs:
+        return mk_binop("Eq", ln, const(0))
+    rhs = subs[-1]
+    for x in reversed(subs[:-1]):
+        rhs = add_terms(rhs, x)
+    return mk_binop("Eq", top, rhs)
 
 
 def eq_term(px, st, a, b):
@@ -885,10 +896,7 @@ def m_eq(px, st, fr, ev):
     for u, lit in ((x, y), (y, x)):
         if isinstance(lit, tuple) and lit[0] in ("str", "bytes") and lit[1] == "" and isinstance(u, tuple):
             # s == "" is s.is_empty()
-            ln = len_term(u)
-            if isinstance(ln, tuple) and ln[0] == "binop" and ln[1] == "Sub":
-                return val(st.cons.lookup(mk_binop("Eq", ln[2], ln[3])))
-            return val(st.cons.lookup(mk_binop("Eq", ln, const(0))))
+            return val(st.cons.lookup(zero_length_cond(len_term(u))))
     t = ("eq", x, y)
     px.mark_bool(t)
     return val(st.cons.lookup(t))
